@@ -5,6 +5,7 @@ use crate::dd::*;
 use crate::gen;
 use crate::ind::B;
 use crate::rec::Rec;
+use crate::rng::Rng;
 use crate::runner::{Runner, Tier};
 use crate::spec::{self, EmaRef};
 
@@ -31,6 +32,8 @@ pub struct Ref {
     pub cumvol: f64,
     pub ambiguous_until: usize,
     pub maxflow: f64,
+    pub count: usize,   // inputs since creation (the histories below may have been trimmed)
+    pub bounded: bool,  // long runs: keep only the last n+2 inputs (everything older is outside every lookback)
 }
 
 pub struct Judged {
@@ -58,6 +61,8 @@ impl Ref {
             cumvol: 0.0,
             ambiguous_until: 0,
             maxflow: 0.0,
+            count: 0,
+            bounded: false,
         }
     }
 
@@ -72,6 +77,29 @@ impl Ref {
 
     /// feed one input (scalar or bar) and return the judged references for each output
     pub fn step(&mut self, x: Option<f64>, bar: Option<&B>) -> Vec<Option<Judged>> {
+        self.step_opt(x, bar, true)
+    }
+
+    /// the three f64 summation orders of the typical price all give the exact value: the direction test
+    /// of this bar is then the same under every reasonable evaluation of (high+low+close)/3
+    fn tp_robustly_exact(b: &B) -> bool {
+        let e = spec::typical(b);
+        [(b.c + b.h) + b.l, (b.h + b.l) + b.c, (b.c + b.l) + b.h].iter().all(|s| dd(s / 3.0) == e)
+    }
+
+    /// `judge` = false: only the reference STATE is advanced (histories, exponential averages, running
+    /// volume, ambiguity bookkeeping); the from-scratch window evaluations are skipped and `vec![]` returned
+    /// for the windowed indicators.  Used by the long runs, which judge densely only around round counts.
+    pub fn step_opt(&mut self, x: Option<f64>, bar: Option<&B>, judge: bool) -> Vec<Option<Judged>> {
+        let keep = self.n + 2;
+        if self.bounded && self.xs.len() >= 2 * keep + 4096 {
+            let cut = self.xs.len() - keep;
+            self.xs.drain(..cut);
+            if !self.bars.is_empty() {
+                let cutb = self.bars.len() - keep;
+                self.bars.drain(..cutb);
+            }
+        }
         let price = match (x, bar) {
             (Some(x), _) => x,
             (None, Some(b)) => b.c,
@@ -84,14 +112,16 @@ impl Ref {
         } else {
             self.big = self.big.max(price.abs());
         }
-        let t = self.xs.len();
+        self.count += 1;
+        let t = self.count; // inputs so far
+        let len = self.xs.len(); // of which still held (== t unless trimmed; always > n+1 once trimmed)
         let n = self.n;
         match self.ind.as_str() {
             "RelativeStrengthIndex" => {
                 let (g, l) = if t == 1 {
                     (dd(0.1), dd(0.1))
                 } else {
-                    let (cur, prev) = (self.xs[t - 1], self.xs[t - 2]);
+                    let (cur, prev) = (self.xs[len - 1], self.xs[len - 2]);
                     if cur > prev {
                         (dd(cur).sub(dd(prev)), DD::ZERO)
                     } else {
@@ -109,6 +139,9 @@ impl Ref {
                 vec![Some(Judged { refv: dd(100.0).mul(u).div(den), c, scale: 100.0 })]
             }
             "FastStochastic" | "SlowStochastic" => {
+                if !judge && self.ind == "FastStochastic" {
+                    return vec![];
+                }
                 let (lo, hi, cur) = match bar {
                     Some(_) => {
                         let w = spec::last_n(&self.bars, n);
@@ -136,7 +169,7 @@ impl Ref {
                 }
             }
             "RateOfChange" => {
-                let base = if t > n { self.xs[t - 1 - n] } else { self.xs[0] };
+                let base = if t > n { self.xs[len - 1 - n] } else { self.xs[0] };
                 if base == 0.0 {
                     return vec![None];
                 }
@@ -147,9 +180,12 @@ impl Ref {
                 if t == 1 {
                     return vec![Some(Judged { refv: dd(1.0), c: 1.0, scale: 1.0 })];
                 }
-                let bi = if t > n { t - 1 - n } else { 0 };
+                if !judge {
+                    return vec![];
+                }
+                let bi = if t > n { len - 1 - n } else { 0 };
                 let mut vol = DD::ZERO;
-                for i in bi + 1..t {
+                for i in bi + 1..len {
                     vol = vol.add(dd(self.xs[i]).sub(dd(self.xs[i - 1])).abs());
                 }
                 if vol.is_zero() {
@@ -175,6 +211,9 @@ impl Ref {
                 ]
             }
             "CommodityChannelIndex" => {
+                if !judge {
+                    return vec![];
+                }
                 let w = spec::last_n(&self.bars, n);
                 let tps: Vec<DD> = w.iter().map(spec::typical).collect();
                 let k = DD::fromu(tps.len());
@@ -197,22 +236,27 @@ impl Ref {
                 }
                 // direction ambiguity: exact typical prices differ by less than rounding
                 let tp_now = spec::typical(b);
-                let tp_prev = spec::typical(&self.bars[t - 2]);
+                let tp_prev = spec::typical(&self.bars[len - 2]);
                 let diff = tp_now.sub(tp_prev).abs().to_f64();
                 let f_now = (b.c + b.h + b.l) / 3.0;
-                let pb = &self.bars[t - 2];
+                let pb = &self.bars[len - 2];
                 let f_prev = (pb.c + pb.h + pb.l) / 3.0;
                 let exact_sign = if tp_prev.lt(tp_now) { 1 } else if tp_now.lt(tp_prev) { -1 } else { 0 };
                 let f_sign = if f_now > f_prev { 1 } else if f_now < f_prev { -1 } else { 0 };
-                if exact_sign != f_sign || (diff > 0.0 && diff < 1e-13 * tp_now.abs().to_f64()) {
+                // a difference below 1e-13 relative could flip under a re-associated f64 typical price — unless both
+                // typical prices are exactly representable and exact under every summation order (near-tie stage)
+                if exact_sign != f_sign || (diff > 0.0 && diff < 1e-13 * tp_now.abs().to_f64() && !(Self::tp_robustly_exact(b) && Self::tp_robustly_exact(pb))) {
                     self.ambiguous_until = t + n;
                 }
                 if t <= self.ambiguous_until {
                     return vec![None];
                 }
-                let first_move = if t - 1 > n { t - n } else { 1 }; // index of the first bar whose move counts
+                if !judge {
+                    return vec![];
+                }
+                let first_move = if t - 1 > n { len - n } else { 1 }; // index of the first bar whose move counts
                 let (mut pos, mut neg) = (DD::ZERO, DD::ZERO);
-                for i in first_move..t {
+                for i in first_move..len {
                     let a = spec::typical(&self.bars[i]);
                     let p = spec::typical(&self.bars[i - 1]);
                     let flow = a.mul(dd(self.bars[i].v));
@@ -231,7 +275,7 @@ impl Ref {
             }
             "OnBalanceVolume" => {
                 let b = bar.unwrap();
-                let prev = if t == 1 { 0.0 } else { self.xs[t - 2] };
+                let prev = if t == 1 { 0.0 } else { self.xs[len - 2] };
                 if b.c > prev {
                     self.obv = self.obv.add(dd(b.v));
                 } else if b.c < prev {
@@ -246,6 +290,9 @@ impl Ref {
 }
 
 pub fn check(case: &Case, rec: &mut Rec) -> Option<Failure> {
+    if case.kind.starts_with("long-") {
+        return check_long(case);
+    }
     let id = match mk(case, rec) {
         Ok(i) => i,
         Err(f) => return Some(f),
@@ -293,6 +340,198 @@ pub fn check(case: &Case, rec: &mut Rec) -> Option<Failure> {
         }
     }
     None
+}
+
+// ---------------------------------------------------------------------------------------------------
+// long runs on ONE instance (state that only shows after very many updates: counters, periodic re-syncs)
+
+pub const LONG_REGIMES: &[&str] = &["walk", "ticks", "heavy-light"];
+
+/// the round update counts after which a long run is judged at EVERY step for 2·period+2 steps:
+/// 2^10..2^k, 10^k and 5·10^k up to `len`
+pub fn round_counts(len: usize) -> Vec<usize> {
+    let mut v = vec![];
+    let mut p = 1usize << 10;
+    while p <= len {
+        v.push(p);
+        p <<= 1;
+    }
+    let mut d = 1000usize;
+    while d <= len {
+        v.push(d);
+        if 5 * d <= len {
+            v.push(5 * d);
+        }
+        d *= 10;
+    }
+    v.sort();
+    v
+}
+
+/// next bar of a long stream inside the band [scale, 1000·scale] (valid: low <= open, close <= high, volume >= 0)
+fn long_bar(rng: &mut Rng, regime: &str, i: usize, scale: f64, prev: &B) -> B {
+    let (lo, hi) = (scale, 1000.0 * scale);
+    let c = match regime {
+        // tick-quoted walk on 16 price levels: equal neighbours everywhere
+        "ticks" => {
+            let k = ((prev.c / lo).round() as i64 - 1).clamp(0, 15);
+            let k2 = (k + [-1i64, 0, 0, 1, 1, -1, 2, -2][rng.below(8)]).clamp(0, 15);
+            lo * (1.0 + k2 as f64)
+        }
+        // multiplicative walk, a tenth of the steps repeat the previous close
+        _ => {
+            if rng.chance(0.1) {
+                prev.c
+            } else {
+                (prev.c * (1.0 + (rng.unit() - 0.5) * 0.02)).max(lo).min(hi)
+            }
+        }
+    };
+    let o = prev.c;
+    let (top, bot) = (o.max(c), o.min(c));
+    let (h, l) = if rng.chance(0.15) { (top, bot) } else { (top * (1.0 + rng.unit() * 0.01), bot * (1.0 - rng.unit() * 0.01)) };
+    let v = match regime {
+        // sessions of 300 heavy bars (×10^4 volume) and 300 light ones
+        "heavy-light" => 100.0 * (0.5 + rng.unit()) * if (i / 300) % 2 == 0 { 1e4 } else { 1.0 },
+        _ => {
+            if rng.chance(0.05) {
+                0.0
+            } else {
+                100.0 * (0.5 + rng.unit())
+            }
+        }
+    };
+    B { o, h, l, c, v }
+}
+
+/// The stream is regenerated from (seed, regime, scale, len) = extra[0..4]; ops stay empty.  Judged at every step
+/// with N−1 <= t <= N+2·period+2 for every round count N, at 400 evenly spaced steps and at the last step.
+fn check_long(case: &Case) -> Option<Failure> {
+    let seed = case.extra[0] as u64;
+    let regime = LONG_REGIMES[case.extra[1] as usize % LONG_REGIMES.len()];
+    let scale = case.extra[2];
+    let len = case.extra[3] as usize;
+    let mut inst = match crate::ind::Ind::create(&case.ind, &case.ps, &case.ms) {
+        Some(Ok(i)) => i,
+        _ => return fail(case, "ctor", format!("constructor failed for {:?}", case.ps)),
+    };
+    let bars = !inst.has_next();
+    let mut rng = Rng::new(seed);
+    let mut r = Ref::new(&case.ind, &case.ps);
+    r.bounded = true;
+    let span = 2 * case.ps.iter().copied().max().unwrap_or(1) + 2;
+    let rounds = round_counts(len);
+    let mut ri = 0usize; // first round count whose dense window has not ended yet
+    let sample_every = (len / 400).max(1);
+    let mut prev = B { o: 30.0 * scale, h: 30.0 * scale, l: 30.0 * scale, c: 30.0 * scale, v: 0.0 };
+    for i in 0..len {
+        let b = long_bar(&mut rng, regime, i, scale, &prev);
+        prev = b;
+        let t = i + 1;
+        while ri < rounds.len() && rounds[ri] + span < t {
+            ri += 1;
+        }
+        let dense = ri < rounds.len() && t + 1 >= rounds[ri];
+        let judge = dense || t % sample_every == 0 || t == len;
+        let (out, judged) = if bars { (inst.next_bar(&b), r.step_opt(None, Some(&b), judge)) } else { (inst.next(b.c), r.step_opt(Some(b.c), None, judge)) };
+        if !judge {
+            continue;
+        }
+        for (j, (o, jd)) in out.iter().zip(judged.iter()).enumerate() {
+            if let Some(jd) = jd {
+                if !(jd.c <= 1e6) {
+                    continue;
+                }
+                let tol = tau(t) * jd.c * jd.scale;
+                let d = absdiff(*o, jd.refv);
+                if !(d <= tol) {
+                    return fail(case, &format!("formula-out{}", j), format!("long run ({} regime, scale {:e}, seed {}), update t={}: output #{} = {:e}, documented formula from scratch on the last period+1 inputs = {:e}, |diff| {:e} > τ·c·scale = {:e} (c = {:e})", regime, scale, seed, t, j, o, jd.refv.to_f64(), d, tol, jd.c));
+                }
+            }
+        }
+    }
+    None
+}
+
+// ---------------------------------------------------------------------------------------------------
+// near-ties: consecutive prices one or two ulps apart are MOVES (only bit-equal prices are ties)
+
+pub fn ulps(x: f64, k: i64) -> f64 {
+    // x finite, positive and far from 0 / overflow
+    f64::from_bits((x.to_bits() as i64 + k) as u64)
+}
+/// x with its three lowest significand bits cleared: 3·x, 2·x and (x+x+x)/3 are then exact, and so are the
+/// neighbours 4 and 8 ulps away — typical prices of one-price bars on this grid are exact in every summation order
+pub fn grid(x: f64) -> f64 {
+    f64::from_bits(x.to_bits() & !7u64)
+}
+/// 0.3 is here because 0.1 + 0.2 == next_up(0.3)
+pub const NEAR_LEVELS: &[f64] = &[1e-300, 1e-9, 0.3, 1.0, 100.0, 12345.678, 1e6, 1e12];
+
+/// the near-tie alphabet of an indicator at a level: price / one-price bar / bar with that close
+fn near_symbol(ind: &str, level: f64, j: usize, pos: usize) -> Op {
+    let tp_compare = ind == "MoneyFlowIndex" || ind == "CommodityChannelIndex";
+    let vol = [10.0, 0.0, 5.0, 7.5][(j + pos) % 4];
+    if tp_compare {
+        // typical-price comparers: one-price bars 4 and 8 ulps apart on the exact grid
+        let g = grid(level);
+        let x = [g, ulps(g, 4), ulps(g, -4), ulps(g, 8), grid(g * 1.25)][j];
+        Op::Bar(B { o: x, h: x, l: x, c: x, v: vol })
+    } else {
+        let x = [level, ulps(level, 1), ulps(level, -1), ulps(level, 2), level * 1.25][j];
+        if crate::ind::has_next_name(ind) {
+            Op::Next(x)
+        } else {
+            // close comparers (OBV): a valid bar whose close is the near-tie price
+            Op::Bar(B { o: x, h: level * 1.5, l: level * 0.5, c: x, v: vol })
+        }
+    }
+}
+
+/// sampled near-tie stream: 60% moves of ±1/±2 ulps (±4/±8 on the exact grid for typical-price comparers),
+/// 15% bit-equal repeats, 25% genuine moves of up to 1%
+fn near_tie_case(r: &mut Runner, ind: &str, level: f64, maxp: usize, maxlen: usize) -> Case {
+    let np = crate::ind::arity(ind).unwrap().0;
+    let ps: Vec<usize> = (0..np).map(|_| gen::period(&mut r.rng, maxp)).collect();
+    let tp_compare = ind == "MoneyFlowIndex" || ind == "CommodityChannelIndex";
+    let one_price = tp_compare && r.rng.chance(0.7);
+    let unit = if tp_compare { 4 } else { 1 };
+    let scalars = crate::ind::has_next_name(ind) && !(matches!(ind, "FastStochastic" | "SlowStochastic") && r.rng.chance(0.3));
+    let len = r.rng.range(2, maxlen);
+    let mut c = Case::new("C03", "near-ties-sampled", ind, &ps, &[]);
+    let mut x = if tp_compare { grid(level) } else { level };
+    let mut prev_c = x;
+    for _ in 0..len {
+        let u = r.rng.unit();
+        if u < 0.6 {
+            x = ulps(x, unit * *r.rng.pick(&[-2i64, -1, 1, 2]));
+        } else if u < 0.75 {
+            // bit-equal repeat
+        } else {
+            x = (x * (1.0 + (r.rng.unit() - 0.5) * 0.02)).max(level * 0.5).min(level * 2.0);
+            if tp_compare {
+                x = grid(x);
+            }
+        }
+        let v = match r.rng.below(6) {
+            0 => 0.0,
+            1 => 1.0,
+            2 => 1e4 * r.rng.unit(),
+            _ => 1000.0 * r.rng.unit(),
+        };
+        if scalars {
+            c.ops.push(Op::Next(x));
+        } else if one_price {
+            c.ops.push(Op::Bar(B { o: x, h: x, l: x, c: x, v }));
+        } else {
+            // valid bar: high / low a few grid units (or a genuine spread) away from open and close
+            let (top, bot) = (x.max(prev_c), x.min(prev_c));
+            let (h, l) = if r.rng.chance(0.5) { (ulps(top, unit * r.rng.below(3) as i64), ulps(bot, -unit * r.rng.below(3) as i64)) } else { (top * 1.001, bot * 0.999) };
+            c.ops.push(Op::Bar(B { o: prev_c, h, l, c: x, v }));
+        }
+        prev_c = x;
+    }
+    c
 }
 
 /// bars in which close != (high+low)/2, volumes incl. 0, equal neighbours
@@ -398,6 +637,64 @@ pub fn generate(r: &mut Runner) {
         let nt = c.ops.len() > maxp + 1;
         r.run(c, nt);
     }
+    // near-tie stage, small scope: every sequence of the stated depth over {L, L+1ulp, L−1ulp, L+2ulp, 1.25·L}
+    // (close comparers; for the typical-price comparers MFI and CCI one-price bars at {G, G±4ulp, G+8ulp, 1.25·G}
+    // on the grid G of prices whose typical price is exact), volumes {10, 0, 5, 7.5} by position, at 8 magnitudes
+    let ndepth = if r.tier == Tier::Quick { 4 } else { 6 };
+    r.log_every = if r.tier == Tier::Quick { 97 } else { 9973 };
+    for ind in INDS {
+        let np = crate::ind::arity(ind).unwrap().0;
+        let psets: Vec<Vec<usize>> = match np {
+            0 => vec![vec![]],
+            1 => (1..=3).map(|p| vec![p]).collect(),
+            2 => vec![vec![1, 1], vec![2, 3]],
+            _ => vec![vec![1, 2, 1], vec![2, 3, 2]],
+        };
+        for ps in psets {
+            for level in NEAR_LEVELS {
+                for code in 0..5usize.pow(ndepth as u32) {
+                    let mut c = Case::new("C03", "near-ties-exhaustive", ind, &ps, &[]);
+                    let mut k = code;
+                    for pos in 0..ndepth {
+                        c.ops.push(near_symbol(ind, *level, k % 5, pos));
+                        k /= 5;
+                    }
+                    r.run(c, true);
+                }
+            }
+        }
+    }
+    // near-tie stage, sampled: longer streams, periods to 64
+    r.log_every = if r.tier == Tier::Quick { 5 } else { 151 };
+    let reps = if r.tier == Tier::Quick { 4 } else { 120 };
+    for rep in 0..reps {
+        for ind in INDS {
+            for level in NEAR_LEVELS {
+                let c = near_tie_case(r, ind, *level, if rep % 2 == 0 { 4 } else { 64 }, if r.tier == Tier::Quick { 160 } else { 1200 });
+                let maxp = c.ps.iter().copied().max().unwrap_or(1);
+                let nt = c.ops.len() > maxp + 1;
+                r.run(c, nt);
+            }
+        }
+    }
+    // long runs on one instance: 2^20 (quick) / 2^24 (thorough) updates plus the last dense window
+    r.log_every = u64::MAX; // too long for the op log; the model tie of these indicators is exercised by the stages above
+    let nmax = if r.tier == Tier::Quick { 1usize << 20 } else { 1usize << 24 };
+    let lreps = if r.tier == Tier::Quick { 1 } else { 2 };
+    for rep in 0..lreps {
+        for (k, ind) in INDS.iter().enumerate() {
+            let np = crate::ind::arity(ind).unwrap().0;
+            let ps: Vec<usize> = (0..np).map(|j| if j == 0 { *r.rng.pick(&[1usize, 2, 3, 5, 9, 14, 20, 32]) } else { r.rng.range(1, 12) }).collect();
+            let g = (k + rep + r.rng.below(LONG_REGIMES.len())) % LONG_REGIMES.len();
+            let scale = *r.rng.pick(&[1e-2, 1.0, 50.0, 1e3]);
+            let span = 2 * ps.iter().copied().max().unwrap_or(1) + 2;
+            let len = nmax + span + 37;
+            let mut c = Case::new("C03", &format!("long-{}", LONG_REGIMES[g]), ind, &ps, &[]);
+            c.extra = vec![(r.rng.u64() % (1 << 50)) as f64, g as f64, scale, len as f64];
+            r.steps += len as u64;
+            r.run(c, true);
+        }
+    }
 }
 
-pub const RULE: &str = "small scope: all sequences of the stated depth over 4 positive prices with equal neighbours (scalar indicators) or over 4 bars incl. a zero-volume bar, a one-price bar and bars with close != (high+low)/2 (bar-only indicators), periods 1..=5; tie stage: all sequences over 4 bars of which two DIFFERENT ones have the same typical price 7/3 (bar-only indicators, periods 1..=4); sampled: periods to 512, positive price streams in 9 regimes, valid bars with independent open/high/low/close and volumes incl. 0. Each output is compared with the documented formula evaluated from scratch in double-double on the whole history, tolerance tau(t)·c·scale, judged only when c <= 1e6 and the reference denominator is non-zero (MFI additionally skips n steps after a typical-price comparison whose exact and f64 signs differ). Non-trivial = longer than the largest period + 1 (steady state reached).";
+pub const RULE: &str = "small scope: all sequences of the stated depth over 4 positive prices with equal neighbours (scalar indicators) or over 4 bars incl. a zero-volume bar, a one-price bar and bars with close != (high+low)/2 (bar-only indicators), periods 1..=5; tie stage: all sequences over 4 bars of which two DIFFERENT ones have the same typical price 7/3 (bar-only indicators, periods 1..=4); sampled: periods to 512, positive price streams in 9 regimes, valid bars with independent open/high/low/close and volumes incl. 0. Near-tie stage (only bit-equal prices are ties; prices 1 or 2 ulps apart are moves), all 9 indicators, at the 8 magnitudes {1e-300, 1e-9, 0.3 (0.1+0.2 is its upper neighbour), 1, 100, 12345.678, 1e6, 1e12}: all sequences of depth 4 (quick) / 6 (thorough) over {L, L+1ulp, L-1ulp, L+2ulp, 1.25L} fed as prices (scalar indicators) or as the close of valid bars with volumes {10, 0, 5, 7.5} (OBV), and - for the typical-price comparers MFI and CCI - over one-price bars at {G, G+4ulp, G-4ulp, G+8ulp, 1.25G} on the grid G of prices with three cleared low bits, whose typical price is exact under every summation order; periods 1..=3; plus sampled near-tie streams to 160 (quick) / 1200 (thorough) inputs, periods to 64: 60% moves of +-1/+-2 ulps (+-4/+-8 on the grid), 15% bit-equal repeats, 25% genuine moves up to 1%, volumes incl. 0, one-price and ordinary valid bars. Long-run stage (state that shows only after very many updates on ONE instance): each of the 9 indicators is fed 2^20 (quick) / 2^24 (thorough, twice) + 2*period + 39 consecutive inputs without reset, regenerated from the seed stored in the case (regimes: multiplicative walk with 10% equal neighbours and 5% zero volume; tick-quoted walk on 16 levels; walk with sessions of 300 heavy (x10^4 volume) / 300 light bars; band [m, 1000m], m in {1e-2, 1, 50, 1e3}; first period from {1,2,3,5,9,14,20,32}); judged at EVERY step t with N-1 <= t <= N + 2*period + 2 for every round count N (2^10, 2^11, ..., 10^k, 5*10^k up to the length), at 400 evenly spaced steps and at the last step, the reference keeping the last period+2 inputs and its exponential averages. Each output is compared with the documented formula evaluated from scratch in double-double on the whole history (long runs: on the lookback window), tolerance tau(t)*c*scale, judged only when c <= 1e6 and the reference denominator is non-zero (MFI additionally skips n steps after a typical-price comparison whose exact and f64 signs differ, or whose operands differ by less than 1e-13 relative unless both typical prices are exact under all three f64 summation orders). Non-trivial = longer than the largest period + 1 (steady state reached).";
